@@ -93,7 +93,10 @@ Definition cls_ambiguous (base : graph) (layers : list (list frag_entry)) : bool
                  | Some nu, Some nv =>
                      let du := entry_descriptors nu l in let dv := entry_descriptors nv l in
                      let pairs := length (filter (fun p => compat_legacy (fst p) (snd p)) (list_prod du dv)) in
-                     (Z.to_nat (match int_order d with Some o => o | None => 1 end) <? pairs)%nat
+                     (* bonds that can be made: at most the edge order, and every descriptor is used once *)
+                     let nu := length (filter (fun x => existsb (compat_legacy x) dv) du) in
+                     let nv := length (filter (fun y => existsb (fun x => compat_legacy x y) du) dv) in
+                     (Nat.min (Z.to_nat (match int_order d with Some o => o | None => 1 end)) (Nat.min nu nv) <? pairs)%nat
                  | _, _ => false
                  end) (edges_data base)
       (* or one descriptor of a node is wanted by two of its neighbours (the base-graph edge order,
